@@ -1,6 +1,8 @@
+#![feature(const_destruct)]
 // Unit symfold (C18): MergeOnce / MergeOnceWith / SymmetricDiff from incremental-map/src/symmetric_fold.rs
 use vstd::prelude::*;
 use std::iter::Peekable;
+use std::cmp::Ordering;
 use std::collections::{btree_map::Keys, BTreeMap};
 
 verus! {
@@ -64,6 +66,10 @@ pub assume_specification<I: Iterator>[ <Peekable<I> as Iterator>::next ](p: &mut
         pk(old(p)).len() > 0 ==> r == Some(pk(old(p))[0]) && pk(final(p)) == pk(old(p)).drop_first();
 
 pub assume_specification<T>[ core::mem::drop ](x: T);
+
+pub assume_specification<T: std::marker::Destruct, U: std::marker::Destruct>[ Option::<T>::zip ](a: Option<T>, b: Option<U>) -> (r: Option<(T, U)>)
+    ensures r == (match (a, b) { (Some(x), Some(y)) => Some((x, y)), _ => None });
+
 
 // R8: `it.peekable()` is emitted as `vx_peekable(it)` (Iterator::peekable is a provided trait method and
 // cannot be given an assume_specification).  Trusted: the Peekable yields exactly what the iterator would.
@@ -358,6 +364,99 @@ impl<'a> SymmetricDiff<'a> {
 }
 
 
+
+// ---- MergeOnceWith: the ordered merge of two keyed streams used by incr_merge --------------------------
+//@extract enum MergeElement
+//@ file: incremental-map/src/symmetric_fold.rs
+//@ name: MergeElement
+//@end
+
+//@extract struct MergeOnceWith
+//@ file: incremental-map/src/symmetric_fold.rs
+//@ name: MergeOnceWith
+//@ contract:
+//@| #[verifier::reject_recursive_types(I)]
+//@| #[verifier::reject_recursive_types(J)]
+//@| #[verifier::reject_recursive_types(F)]
+//@end
+
+pub type KV<'a> = (&'a u64, DiffElement<&'a u64>);
+
+spec fn kasc<'a>(s: Seq<KV<'a>>) -> bool {
+    forall|i: int, j: int| 0 <= i < j < s.len() ==> *s[i].0 < *s[j].0
+}
+
+/// the comparator agrees with the key order (what merge_shared_impl's closure must provide)
+spec fn cmp_by_key<'a, F: Fn(&KV<'a>, &KV<'a>) -> Ordering>(f: F) -> bool {
+    &&& forall|a: &KV<'a>, b: &KV<'a>| call_requires(f, (a, b))
+    &&& forall|a: &KV<'a>, b: &KV<'a>, o: Ordering| call_ensures(f, (a, b), o) ==> (
+            (o is Less <==> *a.0 < *b.0) && (o is Equal <==> *a.0 == *b.0) && (o is Greater <==> *a.0 > *b.0))
+}
+
+impl<'a, I: Iterator<Item = KV<'a>>, J: Iterator<Item = KV<'a>>, F: Fn(&KV<'a>, &KV<'a>) -> Ordering> MergeOnceWith<I, J, F> {
+    spec fn va(&self) -> Seq<KV<'a>> { pk(&self.a) }
+    spec fn vb(&self) -> Seq<KV<'a>> { pk(&self.b) }
+    spec fn inv(&self) -> bool {
+        &&& kasc(self.va())
+        &&& kasc(self.vb())
+        &&& cmp_by_key(self.fcmp)
+        &&& (self.fused == Some(true) ==> self.vb().len() == 0)
+        &&& (self.fused == Some(false) ==> self.va().len() == 0)
+    }
+    spec fn takes_a(a: Seq<KV<'a>>, b: Seq<KV<'a>>) -> bool { a.len() > 0 && (b.len() == 0 || *a[0].0 <= *b[0].0) }
+    spec fn takes_b(a: Seq<KV<'a>>, b: Seq<KV<'a>>) -> bool { b.len() > 0 && (a.len() == 0 || *b[0].0 <= *a[0].0) }
+
+//@extract fn MergeOnceWith::next
+//@ file: incremental-map/src/symmetric_fold.rs
+//@ impl: impl<I, J, FCmp> Iterator for MergeOnceWith<I, J, FCmp>
+//@ name: next
+//@ as: fn next(&mut self) -> (r: Option<MergeElement<KV<'a>, KV<'a>>>)
+//@ props: C18
+//@ contract:
+//@|     requires old(self).inv(),
+//@|     ensures
+//@|         final(self).inv(), // [inv-preserved]
+//@|         (old(self).va().len() == 0 && old(self).vb().len() == 0) <==> r is None, // [none-iff-both-exhausted]
+//@|         final(self).va() == (if Self::takes_a(old(self).va(), old(self).vb()) { old(self).va().drop_first() } else { old(self).va() }), // [left-advances-iff-its-key-is-least-or-equal]
+//@|         final(self).vb() == (if Self::takes_b(old(self).va(), old(self).vb()) { old(self).vb().drop_first() } else { old(self).vb() }), // [right-advances-iff-its-key-is-least-or-equal]
+//@end
+}
+
+
+// ---- the comparator closures handed to MergeOnceWith::new in the two merge_shared_impl copies -------------
+// (R8': a closure literal is emitted as a named fn: parameters vx_p0.. bound to the closure's own patterns, same body)
+//@extract closure btree_map::merge_shared_impl::comparator
+//@ file: incremental-map/src/btree_map.rs
+//@ name: merge_shared_impl
+//@ anchor: `MergeOnceWith::new\(\s*left_diff\s*,\s*right_diff\s*,\s*(\|[^;]*?)\)\s*;`
+//@ params: `(k, _), (k2, _)`
+//@ as: fn btree_merge_cmp<'a>(vx_p0: &KV<'a>, vx_p1: &KV<'a>) -> (r: Ordering)
+//@ props: C18
+//@ contract:
+//@|     ensures
+//@|         (r is Less <==> *vx_p0.0 < *vx_p1.0) && (r is Equal <==> *vx_p0.0 == *vx_p1.0) && (r is Greater <==> *vx_p0.0 > *vx_p1.0), // [merge-comparator-orders-left-key-against-right-key]
+//@end
+
+//@extract closure im_rc::merge_shared_impl::comparator
+//@ file: incremental-map/src/im_rc.rs
+//@ name: merge_shared_impl
+//@ anchor: `MergeOnceWith::new\(\s*left_diff\s*,\s*right_diff\s*,\s*(\|[^;]*?)\)\s*;`
+//@ params: `(k, _), (k2, _)`
+//@ as: fn ordmap_merge_cmp<'a>(vx_p0: &KV<'a>, vx_p1: &KV<'a>) -> (r: Ordering)
+//@ props: C18
+//@ contract:
+//@|     ensures
+//@|         (r is Less <==> *vx_p0.0 < *vx_p1.0) && (r is Equal <==> *vx_p0.0 == *vx_p1.0) && (r is Greater <==> *vx_p0.0 > *vx_p1.0), // [merge-comparator-orders-left-key-against-right-key]
+//@end
+
+/// the two comparators satisfy the precondition of MergeOnceWith::next (`cmp_by_key`)
+proof fn lemma_merge_comparators_order_by_key<'a>()
+    ensures
+        forall|a: &KV<'a>, b: &KV<'a>, o: Ordering| call_ensures(btree_merge_cmp, (a, b), o) ==> ((o is Less <==> *a.0 < *b.0) && (o is Equal <==> *a.0 == *b.0) && (o is Greater <==> *a.0 > *b.0)),
+        forall|a: &KV<'a>, b: &KV<'a>, o: Ordering| call_ensures(ordmap_merge_cmp, (a, b), o) ==> ((o is Less <==> *a.0 < *b.0) && (o is Equal <==> *a.0 == *b.0) && (o is Greater <==> *a.0 > *b.0)),
+        forall|a: &KV<'a>, b: &KV<'a>| call_requires(btree_merge_cmp, (a, b)) && call_requires(ordmap_merge_cmp, (a, b)),
+{ }
+
 // ---- the map-level entry points -------------------------------------------------------------------------
 
 // Trusted model of Iterator::fold for the (R3: inherent) iterator SymmetricDiff: `folded(items, init, f, r)` is
@@ -417,7 +516,8 @@ spec fn has_key<'a>(s: Seq<&'a u64>, x: u64) -> bool {
     exists|i: int| 0 <= i < s.len() && *#[trigger] s[i] == x
 }
 
-proof fn lemma_diff_stream_general<'a>(rem: Seq<&'a u64>, m1: Map<u64, u64>, m2: Map<u64, u64>, lo: int)
+/// order and tags of the diff stream
+proof fn lemma_diff_stream_order<'a>(rem: Seq<&'a u64>, m1: Map<u64, u64>, m2: Map<u64, u64>, lo: int)
     requires asc(rem), forall|i: int| 0 <= i < rem.len() ==> lo < *#[trigger] rem[i],
     ensures
         ({
@@ -425,36 +525,21 @@ proof fn lemma_diff_stream_general<'a>(rem: Seq<&'a u64>, m1: Map<u64, u64>, m2:
             &&& forall|i: int, j: int| 0 <= i < j < d.len() ==> *(#[trigger] d[i]).0 < *(#[trigger] d[j]).0
             &&& forall|i: int| 0 <= i < d.len() ==> lo < *(#[trigger] d[i]).0
             &&& forall|i: int| 0 <= i < d.len() ==> (#[trigger] d[i]).1 == tag_of::<'a>(m1, m2, *d[i].0)
-            &&& forall|x: u64| visits(d, x) <==> (has_key(rem, x) && !present_equal(m1, m2, x))
         }),
     decreases rem.len(),
 {
     let d = diff_stream(rem, m1, m2);
     if rem.len() == 0 {
-        assert forall|x: u64| visits(d, x) <==> (has_key(rem, x) && !present_equal(m1, m2, x)) by { }
     } else {
         let k = rem[0];
         let tail = rem.drop_first();
         lemma_asc_drop_first(rem);
         assert forall|i: int| 0 <= i < tail.len() implies (*k as int) < *#[trigger] tail[i] by { }
-        lemma_diff_stream_general(tail, m1, m2, *k as int);
+        lemma_diff_stream_order(tail, m1, m2, *k as int);
         let rest = diff_stream(tail, m1, m2);
         assert forall|i: int| 0 <= i < rest.len() implies lo < *(#[trigger] rest[i]).0 by { }
         if present_equal(m1, m2, *k) {
             assert(d == rest);
-            assert forall|x: u64| visits(d, x) <==> (has_key(rem, x) && !present_equal(m1, m2, x)) by {
-                if has_key(rem, x) && !present_equal(m1, m2, x) {
-                    let i = choose|i: int| 0 <= i < rem.len() && *#[trigger] rem[i] == x;
-                    assert(i > 0);
-                    assert(*tail[i - 1] == x);
-                    assert(has_key(tail, x));
-                }
-                if visits(d, x) {
-                    assert(has_key(tail, x));
-                    let i = choose|i: int| 0 <= i < tail.len() && *#[trigger] tail[i] == x;
-                    assert(*rem[i + 1] == x);
-                }
-            }
         } else {
             let e = (k, tag_of::<'a>(m1, m2, *k));
             assert(d == cons(e, rest));
@@ -468,31 +553,48 @@ proof fn lemma_diff_stream_general<'a>(rem: Seq<&'a u64>, m1: Map<u64, u64>, m2:
             assert forall|i: int| 0 <= i < d.len() implies (#[trigger] d[i]).1 == tag_of::<'a>(m1, m2, *d[i].0) by {
                 if i > 0 { assert(d[i] == rest[i - 1]); }
             }
-            assert forall|x: u64| visits(d, x) <==> (has_key(rem, x) && !present_equal(m1, m2, x)) by {
-                if has_key(rem, x) && !present_equal(m1, m2, x) {
-                    let i = choose|i: int| 0 <= i < rem.len() && *#[trigger] rem[i] == x;
-                    if i == 0 {
-                        assert(*d[0].0 == x);
-                    } else {
-                        assert(*tail[i - 1] == x);
-                        assert(has_key(tail, x));
-                        assert(visits(rest, x));
-                        let j = choose|j: int| 0 <= j < rest.len() && *(#[trigger] rest[j]).0 == x;
-                        assert(d[j + 1] == rest[j]);
-                    }
-                }
-                if visits(d, x) {
-                    let i = choose|i: int| 0 <= i < d.len() && *(#[trigger] d[i]).0 == x;
-                    if i == 0 {
-                        assert(*rem[0] == x);
-                    } else {
-                        assert(d[i] == rest[i - 1]);
-                        assert(visits(rest, x));
-                        let j = choose|j: int| 0 <= j < tail.len() && *#[trigger] tail[j] == x;
-                        assert(*rem[j + 1] == x);
-                    }
-                }
+        }
+    }
+}
+
+/// which keys the diff stream visits: exactly the remaining keys that are not (present in both with equal values)
+proof fn lemma_diff_stream_visits<'a>(rem: Seq<&'a u64>, m1: Map<u64, u64>, m2: Map<u64, u64>, x: u64)
+    ensures visits(diff_stream(rem, m1, m2), x) <==> (has_key(rem, x) && !present_equal(m1, m2, x)),
+    decreases rem.len(),
+{
+    let d = diff_stream(rem, m1, m2);
+    if rem.len() == 0 {
+    } else {
+        let k = rem[0];
+        let tail = rem.drop_first();
+        lemma_diff_stream_visits(tail, m1, m2, x);
+        let rest = diff_stream(tail, m1, m2);
+        // has_key(rem, x) <==> *k == x || has_key(tail, x)
+        if has_key(rem, x) {
+            let i = choose|i: int| 0 <= i < rem.len() && *#[trigger] rem[i] == x;
+            if i > 0 { assert(*tail[i - 1] == x); }
+        }
+        if has_key(tail, x) {
+            let i = choose|i: int| 0 <= i < tail.len() && *#[trigger] tail[i] == x;
+            assert(*rem[i + 1] == x);
+        }
+        if *k == x { assert(*rem[0] == x); }
+        if present_equal(m1, m2, *k) {
+            assert(d == rest);
+        } else {
+            let e = (k, tag_of::<'a>(m1, m2, *k));
+            assert(d == cons(e, rest));
+            // visits(d, x) <==> *k == x || visits(rest, x)
+            if visits(d, x) {
+                let i = choose|i: int| 0 <= i < d.len() && *(#[trigger] d[i]).0 == x;
+                if i > 0 { assert(d[i] == rest[i - 1]); assert(*rest[i - 1].0 == x); }
             }
+            if visits(rest, x) {
+                let j = choose|j: int| 0 <= j < rest.len() && *(#[trigger] rest[j]).0 == x;
+                assert(d[j + 1] == rest[j]);
+                assert(*d[j + 1].0 == x);
+            }
+            if *k == x { assert(*d[0].0 == x); }
         }
     }
 }
@@ -500,6 +602,8 @@ proof fn lemma_diff_stream_general<'a>(rem: Seq<&'a u64>, m1: Map<u64, u64>, m2:
 /// C18 for BTreeMap / Rc<BTreeMap>: what `symmetric_fold` folds over (see contract of btree_symmetric_fold)
 /// is, for any two maps: ascending in the key, visits a key iff it is in exactly one map or in both with
 /// unequal values, each such key once, tagged Left / Right / Unequal(self's, other's); nothing when equal.
+#[verifier::rlimit(80)]
+#[verifier::spinoff_prover]
 proof fn lemma_symmetric_diff_characterisation<'a>(ka: Seq<&'a u64>, kb: Seq<&'a u64>, m1: Map<u64, u64>, m2: Map<u64, u64>)
     requires keys_of(ka, m1), keys_of(kb, m2),
     ensures
@@ -514,8 +618,11 @@ proof fn lemma_symmetric_diff_characterisation<'a>(ka: Seq<&'a u64>, kb: Seq<&'a
     let rem = merged(ka, kb);
     lemma_merged_ascending(ka, kb);
     assert forall|i: int| 0 <= i < rem.len() implies -1 < *#[trigger] rem[i] by { }
-    lemma_diff_stream_general(rem, m1, m2, -1);
+    lemma_diff_stream_order(rem, m1, m2, -1);
     let d = diff_stream(rem, m1, m2);
+    assert forall|x: u64| visits(d, x) <==> (has_key(rem, x) && !present_equal(m1, m2, x)) by {
+        lemma_diff_stream_visits(rem, m1, m2, x);
+    }
     assert forall|x: u64| has_key(rem, x) <==> (m1.contains_key(x) || m2.contains_key(x)) by {
         if has_key(rem, x) {
             let i = choose|i: int| 0 <= i < rem.len() && *#[trigger] rem[i] == x;
